@@ -57,6 +57,17 @@ class Line:
         self.recv_error = False
         self.connect_ok = True
         self.hook = None          # scheduler hook (C15)
+        self.pending = []         # [arrival time, bytes]: replies still in flight (latency)
+
+    def deliver_due(self, horizon):
+        """move replies whose (virtual) arrival time is <= horizon into rx; returns the earliest arrival used"""
+        due = sorted([p for p in self.pending if p[0] <= horizon], key=lambda p: p[0])
+        if not due:
+            return None
+        first = due[0]
+        self.pending.remove(first)
+        self.rx += first[1]
+        return first[0]
 
     def write(self, data):
         if self.hook:
@@ -185,7 +196,12 @@ class Patches:
         def fselect(r, w, x, timeout=None):
             if line.hook:
                 line.hook("select")
+            line.deliver_due(clock.t)
             if line.rx or line.closed_by_peer or line.recv_error:
+                return (list(r), [], [])
+            arr = line.deliver_due(clock.t + max(0.0, timeout or 0.0))
+            if arr is not None:
+                clock.t = max(clock.t, arr)          # the select wakes up when the reply arrives
                 return (list(r), [], [])
             clock.sleep(max(0.0, timeout or 0.0) + 0.001)
             return ([], [], [])
